@@ -2,6 +2,7 @@
 """prints the prompt given to a fresh mutation sub-agent for property <id> (only the property text and a worktree)"""
 import json, sys
 pid, tag = sys.argv[1], sys.argv[2]
+focus = sys.argv[3] if len(sys.argv) > 3 else ""
 p = next(json.loads(l) for l in open('/verif/properties.jsonl') if json.loads(l)['id'] == pid)
 import glob
 prev = []
@@ -25,6 +26,7 @@ Where it lives: files {p['anchors']['files']}; mechanisms: {[m['name'] + ' @ ' +
 YOUR WORKTREE: {wt} (a git worktree of the library at its current HEAD; python = /venv/bin/python; run code against it with `cd {wt} && JAX_PLATFORMS=cpu PYTHONPATH={wt} /venv/bin/python yourscript.py` — check `import jinns; print(jinns.__file__)` points into {wt}). Never touch /repo itself and never commit anything.
 
 {avoid}
+{("FOCUS for this round: " + focus + chr(10)) if focus else ""}
 TASK: write ONE small, realistic change to the library source (the kind of slip a maintainer could make in a refactor: an off-by-one, a swapped argument, a wrong axis/index/key, a condition that is subtly wrong, a stale variable, two sites that each look fine alone) that BREAKS the property above while (a) the package still imports and (b) the existing test suite still passes. Prefer a change that needs something specific to manifest (a particular size/shape relation, a multi-step sequence of calls, an unusual but legal input, a later epoch/iteration, a particular configuration), NOT one that ordinary first use would expose at once. Do not make the change depend on magic constants or special-case inputs artificially ("if n == 7"); it must look like an honest bug.
 
 Then write a demonstration: a small standalone script `{out}/demo.py` that exits 0 (prints OK) on the ORIGINAL code and exits 1 (prints what is wrong) WITH your change, by exercising the library's public behaviour relevant to the property.
